@@ -100,3 +100,4 @@ instance {α} [Canon α] : Canon (Option α) :=
   ⟨fun o => match o with | none => "none" | some a => Canon.canon a⟩
 instance {α} [Canon α] : Canon (Py.PyM α) :=
   ⟨fun r => match r with | .ok a => Canon.canon a | .error e => "err:" ++ toString e⟩
+instance : Canon Unit := ⟨fun _ => "unit"⟩
